@@ -293,6 +293,7 @@ class ProjectGen:
         self.flat_collision = False
         self.flat_dup_budget = 1 if rng.random() < 0.15 else 0
         self.failed_subprojects: T.List[dict] = []
+        self.overridden: T.Dict[str, T.List[Item]] = {}
         # per project ('' main, 'sp'): directory tree and per directory pre/post line lists
         self.dirs: T.Dict[str, T.List[str]] = {}
         self.body: T.Dict[T.Tuple[str, str, str], T.List[str]] = {}
@@ -546,6 +547,16 @@ class ProjectGen:
                 ins.append(mstr(fn))
             srcs.append(f"{gv}.process({', '.join(ins)})")
             self.features.add('generated-source:generator')
+        if r.random() < 0.15:
+            # inputs below the target's directory, their relative path kept in the private dir
+            gv = self.ensure_generator(it.sp)
+            ins = []
+            for k, seg in enumerate(r.sample(['', 'deep', 'deep/er', 'o ther'], r.randint(2, 3))):
+                rel = f'pp_{it.id}/' + (seg + '/' if seg else '') + f'{it.id}_p{k}.in'
+                self.add_file(it.sp, it.dir, rel, 'x\n')
+                ins.append(mstr(rel))
+            srcs.append(f"{gv}.process({', '.join(ins)}, preserve_path_from: meson.current_source_dir() / 'pp_{it.id}')")
+            self.features.add('generated-source:generator-preserve-path')
         single = [x for x in self.earlier(it.sp, ['custom']) if x.id not in it.deps]
         if single and r.random() < 0.12:
             g = r.choice(single)
@@ -856,6 +867,39 @@ class ProjectGen:
                 self.features.add('benchmark')
             self.body[slot].append(f"{func}({mstr(name)}, {e.var}{''.join(', ' + k for k in kw)})")
             self.tests.append({'name': name, 'benchmark': bench, 'prereq': sorted(set(prereq)), 'sp': sp})
+        # built executables reached through find_program() after meson.override_find_program(): registered by this
+        # project (and, for the main project, by the subproject), used in depends:, as executable, as argument
+        nd_exes = [x for x in exes if not x.default]
+        provided = list(self.overridden.get(sp, []))
+        for x in r.sample(nd_exes, min(len(nd_exes), 2)) if r.random() < 0.5 else []:
+            if x.id in [p_.id for p_ in provided]:
+                continue
+            self.body[slot].append(f"meson.override_find_program('c04prog-{x.id}', {x.var})")
+            provided.append(x)
+            self.overridden.setdefault(sp, []).append(x)
+        if sp == '':
+            provided += self.overridden.get('sp', [])
+        for x in provided:
+            for role in r.sample(['dep', 'exe', 'arg', 'bench-dep'], r.randint(1, 2)):
+                self.counter += 1
+                tn = f'lp{self.counter}'
+                lp = f"find_program('c04prog-{x.id}')"
+                e = r.choice(exes)
+                bench = role == 'bench-dep'
+                func = 'benchmark' if bench else 'test'
+                if role in ('dep', 'bench-dep'):
+                    call, via = f"{func}({mstr(tn)}, {e.var}, depends: [{lp}])", 'local-program-dep'
+                    pre = [e.id, x.id]
+                elif role == 'exe':
+                    call, via = f"test({mstr(tn)}, {lp})", 'local-program-exe'
+                    pre = [x.id]
+                else:
+                    call, via = f"test({mstr(tn)}, {e.var}, args: ['--tool', {lp}])", 'local-program-arg'
+                    pre = [e.id, x.id]
+                self.body[slot].append(call)
+                self.tests.append({'name': tn, 'benchmark': bench, 'prereq': sorted(set(pre)), 'sp': sp,
+                                   'via': {x.id: via}})
+                self.features.add('test:' + via)
         # distinct targets that share a name (other dir / other kind): one test or benchmark for each of them, so
         # that every one must be a prerequisite in its own right
         byname: T.Dict[str, T.List[Item]] = {}
@@ -946,7 +990,7 @@ class ProjectGen:
         if any(len(v) > 1 for v in names.values()):
             self.features.add('same-basename-in-two-dirs')
         # tests at the end of each project's root
-        for sp in self.dirs:
+        for sp in sorted(self.dirs, reverse=True):      # the subproject first: it is evaluated first
             self.gen_tests(sp, (sp, '', 'post'))
         # optional subprojects that get disabled because they fail somewhere (before any target, after targets,
         # after test()/benchmark()/alias/install registrations, on the version check)
